@@ -66,7 +66,6 @@ func gen(g *common.Gen) {
 		g.Op("regen %s", d)
 		g.Stat("regen-dir")
 	}
-	noncrit, crit := JunkTypes()
 	// g.N = number of values PER MODEL
 	for _, m := range Models {
 		if !m.Exported {
@@ -74,6 +73,7 @@ func gen(g *common.Gen) {
 			continue
 		}
 		g.Stat("model")
+		noncrit, crit := m.JunkTypes()
 		for i := 0; i < g.N; i++ {
 			r := g.R.Fork()
 			v := m.GenValue(r, 0)
